@@ -703,3 +703,17 @@ class WakeupOracle(HOracle):
         T = q.get("T", 0)
         if T > 1501 + 1:
             self.violate("C16/sleeps-past-todo-rescan", "requested sleep %d s exceeds the 25-minute rescan interval" % T)
+
+
+# ============================================================================ C18 (qmail-send part)
+class ReportFuzzOracle(HOracle):
+    """hostile bytes on the report channels change nothing: judged together with the C03/C04 rules
+    (re-keyed under C18 by the check) plus the REPORTMAX bound on what is stored."""
+    property_id = "C18"
+    REPORTMAX = 10000
+
+    def on_step(self, ev, sim):
+        if ev.get("c") == "write" and (ev.get("path") or "").startswith("queue/bounce/") and ev.get("ret", 0) > 0:
+            if ev.get("len", 0) > self.REPORTMAX + 1200:
+                self.violate("C18/send/stored-report-exceeds-REPORTMAX", "a bounce note of %d bytes was stored" % ev.get("len"))
+            self.res.counters.inc("bounce_notes_measured")
